@@ -104,17 +104,23 @@ def red_noise(rep, a):
         Zs = np.zeros((n, p))
         for t in range(1, n):
             Zs[t] = phis * Zs[t - 1] + E[t]
-        X = Zs @ _orth(rng, p, p).T * np.linspace(1, 2, p)
+        scale = [1.0, 1e-6, 1e5][r % 3]            # physical units: the statement holds at any scale
+        X = Zs @ _orth(rng, p, p).T * np.linspace(1, 2, p) * scale
         Xa = xr.DataArray(X, dims=("time", "x"), coords=dict(time=np.arange(n), x=np.arange(p) * 1.0))
+        Xother = xr.DataArray(rng.normal(size=(n, p)).cumsum(axis=0), dims=("time", "x"), coords=Xa.coords)
         for tm in (1, 2, 4):
             for kpc in (3, 5):
                 nm = [1, 2, kpc][r % 3]
                 std = (r % 2 == 1)
+                refit = (tm == 2)                   # the same object fitted on other data first
                 with warnings.catch_warnings():
                     warnings.simplefilter("ignore")
-                    m = xe.single.OPA(n_modes=nm, tau_max=tm, n_pca_modes=kpc, standardize=std, solver="full").fit(Xa, "time")
+                    m = xe.single.OPA(n_modes=nm, tau_max=tm, n_pca_modes=kpc, standardize=std, solver="full")
+                    if refit:
+                        m.fit(Xother, "time")
+                    m.fit(Xa, "time")
                 cases += 1
-                tag = f"red noise n={n} tau_max={tm} n_pca_modes={kpc} n_modes={nm} std={std}"
+                tag = f"red noise n={n} scale={scale:g} tau_max={tm} n_pca_modes={kpc} n_modes={nm} std={std}{' (second fit of the object)' if refit else ''}"
                 T = np.asarray(m.decorrelation_time().values, float)
                 S = np.asarray(m.scores().transpose("time", "mode").values)
                 G = S.T @ S
